@@ -60,7 +60,7 @@ def graph_term(adj):
 
 
 def key_term(b):
-    return nat_list(list(b))
+    return nat_list(list(b)) + "%N"
 
 
 def run(ctx):
@@ -247,7 +247,7 @@ def run(ctx):
     ctx.sample(ins[5])
     ctx.sample(ins[n_exh_t + 3])
     ctx.sample({"mode": "trie", "keys": ins[len(tcases) + n_exh_k + 1]["keys"], "queries": ins[len(tcases) + n_exh_k + 1]["queries"][:4]})
-    header = ("From Coq Require Import List Arith Bool.\nImport ListNotations.\n"
+    header = ("From Coq Require Import List Arith NArith Bool.\nImport ListNotations.\n"
               "From PV Require Import Common.Corr Model.Toposort Model.Trie.\n")
     mism, err = coq_eval_mismatches("cases_C41t", header, tterms, "topo_chk", shard_size=ctx.budget(800, 2000))
     if err:
